@@ -49,6 +49,34 @@ fn main() {
             cleanup_scratch();
             c
         }
+        Some("gen-corpus") => {
+            // seed corpora for the libFuzzer targets: valid encodings of every PDU type and of their parts
+            let dir = args.get(2).cloned().unwrap_or_else(|| "/verif/fuzz/corpus".into());
+            let mut n = 0;
+            let d = format!("{dir}/decode");
+            std::fs::create_dir_all(&d).unwrap();
+            for (t, enc) in cfdp_verif::props::c06::seed_inputs() {
+                let ti = cfdp_verif::props::c06::TARGETS.iter().position(|x| *x == t).unwrap_or(0) as u8;
+                let mut b = vec![ti];
+                b.extend(enc);
+                std::fs::write(format!("{d}/{n:05}"), b).unwrap();
+                n += 1;
+            }
+            let d = format!("{dir}/roundtrip");
+            std::fs::create_dir_all(&d).unwrap();
+            for i in 0..200u64 {
+                let mut b = vec![(i % 8) as u8];
+                b.extend(Prng::new(i).bytes((i % 97) as usize));
+                std::fs::write(format!("{d}/{i:05}"), b).unwrap();
+            }
+            let d = format!("{dir}/crc_flip");
+            std::fs::create_dir_all(&d).unwrap();
+            for i in 0..100u64 {
+                std::fs::write(format!("{d}/{i:05}"), Prng::new(i ^ 0xC15).bytes(4 + (i % 16) as usize)).unwrap();
+            }
+            println!("corpus written to {dir}");
+            0
+        }
         Some("demo") => {
             // print the trace of one fault-free transfer (smoke test of the simulation engine)
             use cfdp_verif::sim::*;
